@@ -47,11 +47,12 @@ const (
 	opRefused
 	opRawEntry
 	opRebuild
+	opPartial
 	nOps
 )
 
 var opNames = [...]string{"end", "append", "joinlive", "send", "deliver", "publish", "crash", "restart", "partition", "heal",
-	"clockjump", "special", "setid", "algebra", "stall", "iter", "bounded", "byz", "denied", "reader", "tamper", "policy", "crashall", "refused", "rawentry", "rebuild"}
+	"clockjump", "special", "setid", "algebra", "stall", "iter", "bounded", "byz", "denied", "reader", "tamper", "policy", "crashall", "refused", "rawentry", "rebuild", "partial"}
 
 type Profile struct {
 	Prop    string
@@ -291,11 +292,18 @@ func (w *World) pickOp() int {
 	for _, x := range w.P.Weights {
 		total += x
 	}
-	v := w.R.Choose("op", total+1)
-	if v == 0 {
+	// the run ends when the tape says so (values below endW): run length is geometric with mean
+	// (MinSteps+MaxSteps)/2, capped at MaxSteps. Because the end is encoded where it happens,
+	// deleting a step from a tape shortens the run by exactly that step (exhausted tape = 0 = end).
+	endW := 2 * total / (w.P.MinSteps + w.P.MaxSteps)
+	if endW < 1 {
+		endW = 1
+	}
+	v := w.R.Choose("op", total+endW)
+	if v < endW {
 		return opEnd
 	}
-	v--
+	v -= endW
 	for op, x := range w.P.Weights {
 		if v < x {
 			return op
@@ -752,6 +760,10 @@ func (w *World) doStall() {
 func (w *World) doClockJump() {
 	n := w.pickUp("clock-node")
 	delta := 1 + w.R.Choose("clock-delta", 1000)
+	if w.R.Choose("clock-huge", 4) == 0 {
+		// clocks are plain integers chosen by (possibly remote) writers: any magnitude is legal
+		delta = (1 << uint(30+w.R.Choose("clock-exp", 31))) + w.R.Choose("clock-low", 8)
+	}
 	if n == nil || !w.F.clockjump {
 		return
 	}
@@ -1222,8 +1234,7 @@ func (w *World) healAndConverge() {
 // BuildWorld creates a world and runs its event loop (oracles after every event).
 func BuildWorld(r *Run, p *Profile) *World {
 	w := NewWorld(r, p)
-	steps := p.MinSteps + r.Choose("steps", p.MaxSteps-p.MinSteps+1)
-	for w.step = 0; w.step < steps; w.step++ {
+	for w.step = 0; w.step < p.MaxSteps; w.step++ {
 		r.T.Mark()
 		op := w.pickOp()
 		if op == opEnd {
@@ -1292,6 +1303,8 @@ func (w *World) dispatch(op int) {
 		w.doRawEntry()
 	case opRebuild:
 		w.doRebuild()
+	case opPartial:
+		w.doPartial()
 	default:
 		w.dispatchExt(op)
 	}
